@@ -49,15 +49,20 @@ func runC01(c *Ctx) {
 
 	// ---- R1
 	var repl *ssa.Global
-	funcInstrs(pl, func(in ssa.Instruction) {
-		if call, ok := in.(*ssa.Call); ok && calleeName(&call.Call) == "(*strings.Replacer).Replace" {
-			if u, ok := call.Call.Args[0].(*ssa.UnOp); ok && u.Op == token.MUL {
-				if g, ok := u.X.(*ssa.Global); ok {
-					repl = g
+	plReach := c.Closure([]*ssa.Function{pl}, func(from *ssa.Function, e Edge) bool {
+		return !e.Site.Common().IsInvoke() && e.Kind != EdgeGo && e.Callee.Package() == c.Client
+	})
+	for _, fn := range plReach.Order {
+		funcInstrs(fn, func(in ssa.Instruction) {
+			if call, ok := in.(*ssa.Call); ok && calleeName(&call.Call) == "(*strings.Replacer).Replace" {
+				if u, ok := call.Call.Args[0].(*ssa.UnOp); ok && u.Op == token.MUL {
+					if g, ok := u.X.(*ssa.Global); ok {
+						repl = g
+					}
 				}
 			}
-		}
-	})
+		})
+	}
 	r.Anchor("R1", "replacer applied to raw tags (package variable)", repl != nil)
 	if repl != nil {
 		var newRepl *ssa.Call
@@ -189,7 +194,19 @@ func runC01(c *Ctx) {
 	r.Floor("R3", "non-nil stores to Line.Tags", nT, 1)
 	// ---- R4
 	cmds := storesTo(field("Cmd"))
-	r.Floor("R4", "stores to Line.Cmd", len(cmds), 2)
+	for _, fn := range plReach.Order {
+		if fn == pl {
+			continue
+		}
+		funcInstrs(fn, func(in ssa.Instruction) {
+			if s, ok := in.(*ssa.Store); ok {
+				if f2, _ := fieldOf(s.Addr); f2 == field("Cmd") {
+					cmds = append(cmds, s)
+				}
+			}
+		})
+	}
+	r.Floor("R4", "stores to Line.Cmd (ParseLine and its helpers)", len(cmds), 2)
 	for i, s := range cmds {
 		ok := true
 		why := ""
@@ -202,7 +219,7 @@ func runC01(c *Ctx) {
 			}
 			ok, why = false, "verb derives from "+o.String()
 		}
-		r.Add("R4", fmt.Sprintf("cmd-store#%d", i+1), c.InstrPos(s), c.FuncKey(pl), "verb is a constant or upper-cased", ok, why)
+		r.Add("R4", fmt.Sprintf("cmd-store#%d", i+1), c.InstrPos(s), c.FuncKey(s.Parent()), "verb is a constant or upper-cased", ok, why)
 	}
 	// ---- R6
 	c.trailingRule(pl, lineAlloc, param)
@@ -356,26 +373,43 @@ func (c *Ctx) varargElemsOrdered(v ssa.Value) []ssa.Value {
 	return out
 }
 
-// trailingRule (C01.R6): args = Fields(parts[0]) (+ parts[1] iff len(parts) > 1)
-// with parts = SplitN(s, " :", 2).
+// trailingRule (C01.R6): args = Fields(head) (+ trailing iff the " :" split found a second part),
+// for the idioms parts := strings.SplitN(rest, " :", 2) and head, trailing, found := strings.Cut(rest, " :").
 func (c *Ctx) trailingRule(pl *ssa.Function, lineAlloc *ssa.Alloc, param *ssa.Parameter) {
 	r := c.R
 	var split *ssa.Call
+	isCut := false
 	funcInstrs(pl, func(in ssa.Instruction) {
-		if call, ok := in.(*ssa.Call); ok && calleeName(&call.Call) == "strings.SplitN" {
+		call, ok := in.(*ssa.Call)
+		if !ok {
+			return
+		}
+		switch calleeName(&call.Call) {
+		case "strings.SplitN":
 			if sep, ok := constString(call.Call.Args[1]); ok && sep == " :" {
 				if n, ok := constInt(call.Call.Args[2]); ok && n == 2 {
 					split = call
 				}
 			}
+		case "strings.Cut":
+			if sep, ok := constString(call.Call.Args[1]); ok && sep == " :" {
+				split, isCut = call, true
+			}
 		}
 	})
 	if split == nil {
-		r.Add("R6", "trailing-split", c.Pos(pl.Pos()), c.FuncKey(pl), "the middle/trailing split is strings.SplitN(rest, \" :\", 2)", false, "idiom not found: undecided (fail closed)")
+		r.Add("R6", "trailing-split", c.Pos(pl.Pos()), c.FuncKey(pl), "the middle/trailing split is strings.SplitN(rest, \" :\", 2) or strings.Cut(rest, \" :\")", false, "neither idiom found: undecided (fail closed)")
 		return
 	}
-	// find append(Fields(parts[0]), parts[1])
-	var app *ssa.Call
+	part := func(v ssa.Value, i int) bool {
+		if isCut {
+			ex, ok := v.(*ssa.Extract)
+			return ok && ex.Tuple == ssa.Value(split) && ex.Index == i
+		}
+		return c.isElemOf(v, split, int64(i))
+	}
+	// find append(Fields(part0), part1)
+	var app, fieldsCall *ssa.Call
 	funcInstrs(pl, func(in ssa.Instruction) {
 		call, ok := in.(*ssa.Call)
 		if !ok {
@@ -385,20 +419,20 @@ func (c *Ctx) trailingRule(pl *ssa.Function, lineAlloc *ssa.Alloc, param *ssa.Pa
 			return
 		}
 		f, ok := call.Call.Args[0].(*ssa.Call)
-		if !ok || calleeName(&f.Call) != "strings.Fields" || !c.isElemOf(f.Call.Args[0], split, 0) {
+		if !ok || calleeName(&f.Call) != "strings.Fields" || !part(f.Call.Args[0], 0) {
 			return
 		}
 		el := c.singleVarargElem(call.Call.Args[1])
-		if el != nil && c.isElemOf(el, split, 1) {
-			app = call
+		if el != nil && part(el, 1) {
+			app, fieldsCall = call, f
 		}
 	})
 	if app == nil {
-		r.Add("R6", "trailing-append", c.InstrPos(split), c.FuncKey(pl), "the trailing parameter is appended to Fields(head)", false, "append(Fields(parts[0]), parts[1]) not found: undecided (fail closed)")
+		r.Add("R6", "trailing-append", c.InstrPos(split), c.FuncKey(pl), "the trailing parameter is appended to Fields(head)", false, "append(Fields(head), trailing) not found: undecided (fail closed)")
 		return
 	}
-	// the append is control dependent exactly on len(parts) > 1
-	ok, why := false, "the append is not guarded by len(parts) > 1 alone"
+	// the append is control dependent exactly on "a second part exists"
+	ok, why := false, "the append is not guarded by the presence of the \" :\" section alone"
 	var conds []Cond
 	for _, cd := range CondsAt(app.Block()) {
 		if cd.If != nil && instrDominates(split, cd.If) {
@@ -406,22 +440,28 @@ func (c *Ctx) trailingRule(pl *ssa.Function, lineAlloc *ssa.Alloc, param *ssa.Pa
 		}
 	}
 	if len(conds) == 1 {
-		p := c.NewProver()
-		fc := p.newCtx()
-		fc.cond(conds[0])
-		if fc.entails(leExpr(constLin(2), fc.lexpr(split))) {
-			// and the other edge implies len <= 1
-			fc2 := p.newCtx()
-			other := conds[0]
-			other.True = !other.True
-			fc2.cond(other)
-			if fc2.entails(leExpr(fc2.lexpr(split), constLin(1))) {
-				ok, why = true, "appended exactly when the split produced two parts (empty trailing kept)"
+		if isCut {
+			cd := unwrapNot(conds[0])
+			if ex, isE := cd.V.(*ssa.Extract); isE && ex.Tuple == ssa.Value(split) && ex.Index == 2 && cd.True {
+				ok, why = true, "appended exactly when Cut found the separator (empty trailing kept)"
+			}
+		} else {
+			p := c.NewProver()
+			fc := p.newCtx()
+			fc.cond(conds[0])
+			if fc.entails(leExpr(constLin(2), fc.lexpr(split))) {
+				fc2 := p.newCtx()
+				other := conds[0]
+				other.True = !other.True
+				fc2.cond(other)
+				if fc2.entails(leExpr(fc2.lexpr(split), constLin(1))) {
+					ok, why = true, "appended exactly when the split produced two parts (empty trailing kept)"
+				}
 			}
 		}
 	}
 	r.Add("R6", "trailing-append", c.InstrPos(app), c.FuncKey(pl), "trailing parameter appended iff a \" :\" section exists", ok, why)
-	// the result feeds Cmd/Args: args phi = {app, Fields(parts[0])}
+	// the result feeds Cmd/Args: args phi = {app, Fields(head)}
 	var argsPhi *ssa.Phi
 	for _, ref := range *app.Referrers() {
 		if ph, ok := ref.(*ssa.Phi); ok {
@@ -431,15 +471,17 @@ func (c *Ctx) trailingRule(pl *ssa.Function, lineAlloc *ssa.Alloc, param *ssa.Pa
 	okPhi := false
 	if argsPhi != nil && len(argsPhi.Edges) == 2 {
 		for _, e := range argsPhi.Edges {
-			if f, ok := e.(*ssa.Call); ok && calleeName(&f.Call) == "strings.Fields" && c.isElemOf(f.Call.Args[0], split, 0) {
+			if e == ssa.Value(fieldsCall) {
+				okPhi = true
+			}
+			if f, ok := e.(*ssa.Call); ok && calleeName(&f.Call) == "strings.Fields" && part(f.Call.Args[0], 0) {
 				okPhi = true
 			}
 		}
 	}
 	r.Add("R6", "args-sources", c.InstrPos(app), c.FuncKey(pl), "without a trailing section the arguments are Fields(head)", okPhi, "argument list is phi(append(Fields(head), trailing), Fields(head))")
-	// the split operates on the remaining text after tags and source: its operand derives from the parameter by slicing only
 	okSrc := c.suffixOf(split.Call.Args[0], param, 0)
-	r.Add("R6", "split-operand", c.InstrPos(split), c.FuncKey(pl), "the split is applied to a suffix of the received line", okSrc, "operand derives from the parameter by s[i:] slicing")
+	r.Add("R6", "split-operand", c.InstrPos(split), c.FuncKey(pl), "the split is applied to a suffix of the received line", okSrc, "operand derives from the parameter by s[i:] slicing / the remainder of strings.Cut")
 }
 
 // isElemOf: v is the load of element idx of the slice value sl.
@@ -474,6 +516,11 @@ func (c *Ctx) suffixOf(v ssa.Value, param ssa.Value, depth int) bool {
 		return true
 	case *ssa.Slice:
 		return t.High == nil && c.suffixOf(t.X, param, depth+1)
+	case *ssa.Extract:
+		// the "after" result of strings.Cut is a suffix of its operand
+		if call, ok := t.Tuple.(*ssa.Call); ok && calleeName(&call.Call) == "strings.Cut" && t.Index == 1 {
+			return c.suffixOf(call.Call.Args[0], param, depth+1)
+		}
 	}
 	return false
 }
@@ -691,35 +738,75 @@ func runC10(c *Ctx) {
 	r.Funcs[c.FuncKey(wf)] = true
 	var rlCall *ssa.Call
 	var wsCall ssa.Instruction
-	var waits []ssa.Instruction
 	funcInstrs(wf, func(in ssa.Instruction) {
-		if call, ok := in.(*ssa.Call); ok {
-			if call.Call.StaticCallee() == rl {
-				rlCall = call
+		if call, ok := in.(*ssa.Call); ok && calleeName(&call.Call) == "(*bufio.Writer).WriteString" {
+			wsCall = in
+		}
+	})
+	// the function that calls the rate limiter: write itself, or a helper write calls once
+	hf := wf
+	var helperSite *ssa.Call
+	for _, cs := range c.Callers(rl) {
+		if call, ok := cs.(*ssa.Call); ok {
+			rlCall = call
+		}
+	}
+	if rlCall != nil && rlCall.Parent() != wf {
+		hf = rlCall.Parent()
+		for _, cs := range c.Callers(hf) {
+			if call, ok := cs.(*ssa.Call); ok && call.Parent() == wf {
+				helperSite = call
 			}
-			switch calleeName(&call.Call) {
-			case "(*bufio.Writer).WriteString":
-				wsCall = in
-			case "time.Sleep":
-				waits = append(waits, in)
-			}
+		}
+		if helperSite == nil || len(c.Callers(hf)) != 1 {
+			rlCall = nil
+		}
+	}
+	r.Funcs[c.FuncKey(hf)] = true
+	var waits []ssa.Instruction
+	funcInstrs(hf, func(in ssa.Instruction) {
+		if call, ok := in.(*ssa.Call); ok && calleeName(&call.Call) == "time.Sleep" {
+			waits = append(waits, in)
 		}
 		if u, ok := in.(*ssa.UnOp); ok && u.Op == token.ARROW && isTimerChan(u.X) {
 			waits = append(waits, in)
 		}
 	})
-	r.Anchor("R4", "rate-limiter call and socket write in write()", rlCall != nil && wsCall != nil)
+	if hf != wf {
+		// no waits in write itself
+		funcInstrs(wf, func(in ssa.Instruction) {
+			if call, ok := in.(*ssa.Call); ok && calleeName(&call.Call) == "time.Sleep" {
+				waits = append(waits, in)
+			}
+			if u, ok := in.(*ssa.UnOp); ok && u.Op == token.ARROW && isTimerChan(u.X) {
+				waits = append(waits, in)
+			}
+		})
+	}
+	r.Anchor("R4", "rate-limiter call (in write or in a helper write calls once) and socket write in write()", rlCall != nil && wsCall != nil)
 	if rlCall == nil || wsCall == nil {
 		return
 	}
 	line := wf.Params[1]
 	okLen := false
-	if lc, ok := rlCall.Call.Args[1].(*ssa.Call); ok {
-		if b, ok := lc.Call.Value.(*ssa.Builtin); ok && b.Name() == "len" && lc.Call.Args[0] == ssa.Value(line) {
-			okLen = true
+	isLenOfLine := func(v ssa.Value) bool {
+		lc, ok := v.(*ssa.Call)
+		if !ok {
+			return false
+		}
+		b, ok := lc.Call.Value.(*ssa.Builtin)
+		return ok && b.Name() == "len" && lc.Call.Args[0] == ssa.Value(line)
+	}
+	if hf == wf {
+		okLen = isLenOfLine(rlCall.Call.Args[1])
+	} else if pr, ok := rlCall.Call.Args[1].(*ssa.Parameter); ok && pr.Parent() == hf {
+		for i, q := range hf.Params {
+			if q == pr && i < len(helperSite.Call.Args) {
+				okLen = isLenOfLine(helperSite.Call.Args[i])
+			}
 		}
 	}
-	r.Add("R4", "charged-length", c.InstrPos(rlCall), c.FuncKey(wf), "the rate limiter is charged len(line) of the line that is written", okLen, "argument of rateLimit")
+	r.Add("R4", "charged-length", c.InstrPos(rlCall), c.FuncKey(hf), "the rate limiter is charged len(line) of the line that is written", okLen, "argument of rateLimit")
 	floodGuard := func(in ssa.Instruction) bool {
 		for _, cd := range CondsAt(in.Block()) {
 			cd = unwrapNot(cd)
@@ -729,10 +816,13 @@ func runC10(c *Ctx) {
 		}
 		return false
 	}
-	r.Add("R4", "limiter-under-flood-off", c.InstrPos(rlCall), c.FuncKey(wf), "rate limiting happens only when Config.Flood is false", floodGuard(rlCall), "control-dependent on !Flood")
+	floodAt := func(in ssa.Instruction) bool {
+		return floodGuard(in) || (helperSite != nil && in.Parent() == hf && floodGuard(helperSite))
+	}
+	r.Add("R4", "limiter-under-flood-off", c.InstrPos(rlCall), c.FuncKey(hf), "rate limiting happens only when Config.Flood is false", floodAt(rlCall), "control-dependent on !Flood")
 	r.Exactly("R4", "timer waits in write()", len(waits), 1)
 	for i, w := range waits {
-		okW := floodGuard(w) && instrDominates(rlCall, w)
+		okW := floodAt(w) && w.Parent() == hf && instrDominates(rlCall, w)
 		why := "under !Flood, after the limiter call"
 		// waits for exactly the returned value
 		var dur ssa.Value
@@ -765,13 +855,17 @@ func runC10(c *Ctx) {
 			okW, why = false, "the wait is not guarded by the returned delay being non-zero"
 		}
 		// precedes the socket write on that path
-		if okW && ReachFrom(wsCall, false, nil)[w] {
+		var anchor ssa.Instruction = w
+		if hf != wf {
+			anchor = helperSite
+		}
+		if okW && ReachFrom(wsCall, false, nil)[anchor] {
 			okW, why = false, "the wait can happen after the socket write"
 		}
-		if okW && !ReachFrom(w, false, nil)[wsCall] {
+		if okW && !ReachFrom(anchor, false, nil)[wsCall] {
 			okW, why = false, "the socket write is not reached after the wait"
 		}
-		r.Add("R4", fmt.Sprintf("delay#%d", i+1), c.InstrPos(w), c.FuncKey(wf), "the line is held back for its own charge before being written", okW, why)
+		r.Add("R4", fmt.Sprintf("delay#%d", i+1), c.InstrPos(w), c.FuncKey(hf), "the line is held back for its own charge before being written", okW, why)
 	}
 	// the socket write is reached on every non-error path regardless of the delay branch (dominance by entry: WriteString not guarded by flood)
 	for _, cd := range CondsAt(wsCall.Block()) {
